@@ -7,6 +7,8 @@ through femio's public interface, and operators are built again:
   set_conn_new         fem_data.elements.data = new array
   set_conn_same        conn = fem_data.elements.data; conn[k] = ...; fem_data.elements.data = conn
   remove_useless_nodes (the generated meshes carry unreferenced nodes)
+  update_NODE          nodal_data.update_data(ids, {'NODE': new}, allow_overwrite=True)
+  make_elements_positive (twice)
 (translation()/rotation() raise NotImplementedError as soon as nodal_data holds
 'NODE', i.e. always for an object the gradient code can work on; not generated.)
 
@@ -32,7 +34,7 @@ from fractions import Fraction as Fr
 
 import c15_gen as G
 
-OPS = ['set_nodes', 'edit_nodes', 'set_conn_new', 'set_conn_same']
+OPS = ['set_nodes', 'edit_nodes', 'set_conn_new', 'set_conn_same', 'update_NODE', 'make_elements_positive']
 
 
 def cross(a, b):
@@ -95,7 +97,7 @@ def plan_sequence(rng, mesh, mode, n_ops, kw_pool):
             break
         op = mods[k]
         st = {'kind': 'modify', 'op': op}
-        if op in ('set_nodes', 'edit_nodes'):
+        if op in ('set_nodes', 'edit_nodes', 'update_NODE'):
             for attempt in range(20):
                 frac = 0.5 if attempt < 10 else 0.15
                 moved = {}
@@ -111,7 +113,7 @@ def plan_sequence(rng, mesh, mode, n_ops, kw_pool):
             else:
                 moved = {}
                 trial = dict(xyz)
-            if op == 'set_nodes':
+            if op in ('set_nodes', 'update_NODE'):
                 # every node also translated: nothing stays where it was
                 t = [rng.choice([-3, 2, 5]) * unit for _ in range(3)]
                 trial = {i: tuple(a + b for a, b in zip(p, t)) for i, p in trial.items()}
@@ -126,7 +128,7 @@ def plan_sequence(rng, mesh, mode, n_ops, kw_pool):
             rows = rows[1:] + rows[:1] if rng.random() < 0.5 else rows[::-1]
             conn = dict(zip(eids, rows))
             st['by_eid'] = {str(i): r for i, r in conn.items()}
-        else:
+        elif op == 'remove_useless_nodes':
             xyz = {i: p for i, p in xyz.items() if i in used_nodes}
             removed = True
         steps.append(st)
@@ -153,7 +155,7 @@ def attach_data(rng_cls, mesh, mode, steps):
     conn = {i: list(e) for i, e in zip(mesh['elem_ids'], mesh['conn'])}
     for st in steps:
         if st['kind'] == 'modify':
-            if st['op'] == 'set_nodes':
+            if st['op'] in ('set_nodes', 'update_NODE'):
                 xyz = {int(i): tuple(Fr(c) for c in p) for i, p in st['by_id'].items()}
             elif st['op'] == 'edit_nodes':
                 xyz.update({int(i): tuple(Fr(c) for c in p) for i, p in st['by_id'].items()})
